@@ -163,6 +163,31 @@ def rule_undefined_variable(ctx):
                       "no path of execute() refuses an undefined session variable before the statement is parsed and executed")
 
 
+def rule_reference_checked(ctx):
+    """C07.i: a statement that names a table but is replaced by the no-op still makes the engine look the table up
+    (otherwise a reference to a missing object succeeds instead of raising 2003)."""
+    from ..values import NodeV
+    from .common import sql_root
+
+    prog = ctx.prog
+    for kind in ("COMMENT ON TABLE", "ALTER TABLE SET COMMENT"):
+        for tr in traces(prog, kind):
+            if tr.path.outcome != "return":
+                continue
+            touched = False
+            for sqlv in tr.engine_sql:
+                k, root = sql_root(sqlv)
+                if k == "node" and isinstance(root, NodeV) and getattr(root, "shared", False) is False and "SUCCESS_NOP" not in root.name:
+                    touched = True
+                if k == "text" and any(t.is_kw("FROM", "DESCRIBE", "TABLE") for t in root) and "{T}" in text_of(sqlv) and "_fs_" not in text_of(sqlv):
+                    touched = True
+            ctx.ob("C07.i", f"{kind}: the engine is asked about the named table", touched, "fakesnow/transforms.py")
+            if not touched:
+                ctx.violation("C07.i", "transforms", "extract_comment_on_table", f"{kind}: table never referenced in an engine statement", "fakesnow/transforms.py",
+                              f"{kind} is replaced by the success no-op plus a side-table insert: no engine statement references the table, so "
+                              f"`comment on table nosuch is 'x'` succeeds instead of raising 2003/42S02")
+
+
 ENTRIES = [
     ("cursor", "FakeSnowflakeCursor.execute"),
     ("cursor", "FakeSnowflakeCursor.executemany"),
@@ -224,6 +249,7 @@ RULES = [
     ("C07.c", rule_after_accept, ("quick", "thorough")),
     ("C07.d", rule_guards, ("quick", "thorough")),
     ("C07.h", rule_coherence, ("quick", "thorough")),
+    ("C07.i", rule_reference_checked, ("quick", "thorough")),
     ("C07.e", rule_undefined_variable, ("quick", "thorough")),
     ("C07.f", rule_first_engine_call, ("quick", "thorough")),
 ]
